@@ -470,6 +470,7 @@ class Exec(object):
         o = Obligation(name, kind, [] if ok else list(self.pc), z3.BoolVal(bool(ok)), self.path_id(), line, note, self.cur_func)
         o.backend_hint = backend
         o.theories = tuple(sorted(self.theories))
+        o.extra = tuple(getattr(self, "extra_axioms", ()) or ())
         self.obls.append(o)
 
     # ------------------------------------------------------------------ conversion of real objects
